@@ -1,1 +1,2 @@
 import LhasaV.Props.C17
+import LhasaV.Props.C11
